@@ -27,7 +27,7 @@ Inductive final_verdict (E : env) (q : name) (t : N) (cd : bool) : outcome -> Pr
     final_verdict E q t cd (validate_answer E q t cd resp pds (Some zone))
 | fv_negative zone pds resp : handed_down E q cd zone pds ->
     final_verdict E q t cd (validate_negative E q t cd resp pds (Some zone))
-| fv_bare id rc : final_verdict E q t cd (Accept (mk_msg id q t rc [] [] false))
+| fv_bare id rc : rc <> 0 -> rc <> RC_NXDOMAIN -> final_verdict E q t cd (Accept (mk_msg id q t rc [] [] false))
 | fv_fail e : final_verdict E q t cd (Fail e).
 
 Lemma dc_find_cons dc z ds z' :
@@ -54,7 +54,10 @@ Proof.
   - split; [exact Hs|constructor].
   - destruct (m_ans resp) as [|a0 al] eqn:Ea.
     + destruct (m_ns resp) as [|n0 nl] eqn:En.
-      * cbn. split; [exact Hs|constructor].
+      * destruct ((m_rcode resp =? RC_NXDOMAIN) || (m_rcode resp =? 0)) eqn:Erc.
+        -- cbn. split; [exact Hs|econstructor; exact Hh].
+        -- apply orb_false_iff in Erc as [E3 E0]. apply N.eqb_neq in E3, E0.
+           cbn. split; [exact Hs|constructor; assumption].
       * destruct (first_ns (n0 :: nl)) as [f|] eqn:Ef.
         -- destruct (has_soa (n0 :: nl)).
            ++ cbn. split; [exact Hs|econstructor; exact Hh].
@@ -121,6 +124,25 @@ Proof.
   - discriminate.
 Qed.
 
+(* "missing its denial proof -> SERVFAIL": every NOERROR / NXDOMAIN reply of a walk — data, NODATA or name error — is
+   answer()'s or authority()'s verdict for a zone on the path to q with a DS set handed down to that zone; what is handed
+   back without a verdict is an upstream failure rcode with empty sections *)
+Theorem descent_denial_is_validated_lemma E q t cd dc resps m :
+  dc_sound E q cd dc ->
+  dr_out (resolve_from_cache E q t cd dc resps) = Accept m -> (m_rcode m = 0 \/ m_rcode m = RC_NXDOMAIN) ->
+  exists zone pds resp, handed_down E q cd zone pds /\ in_zone q zone = true /\
+    (validate_answer E q t cd resp pds (Some zone) = Accept m \/
+     validate_negative E q t cd resp pds (Some zone) = Accept m).
+Proof.
+  intros Hs Ho Hrc. destruct (resolve_from_cache_sound_lemma E q t cd dc resps Hs) as [_ Hf].
+  revert Ho. generalize (dr_out (resolve_from_cache E q t cd dc resps)) Hf. clear Hf.
+  intros o Hf Ho. destruct Hf as [zone pds resp Hh|zone pds resp Hh|id rc H0 H3|e].
+  - exists zone, pds, resp. split; [exact Hh|]. split; [eapply handed_down_on_path; exact Hh|]. left. exact Ho.
+  - exists zone, pds, resp. split; [exact Hh|]. split; [eapply handed_down_on_path; exact Hh|]. right. exact Ho.
+  - injection Ho as Hm. rewrite <- Hm in Hrc. cbn in Hrc. destruct Hrc; contradiction.
+  - discriminate.
+Qed.
+
 (* "a zone is treated as unsigned only on a validated proof": an EMPTY handed-down set below the root exists only
    because validate_delegation returned the empty set for the referral into that zone, met with a handed-down set *)
 Theorem empty_ds_only_from_validate_delegation_lemma E q cd zone :
@@ -136,6 +158,54 @@ Proof.
   apply andb_true_iff in Hv as [Hv1 _]. apply andb_true_iff in Hv1 as [Hz Hn].
   split; [exact Hz|]. split; [apply negb_true_iff; exact Hn|exact Hvd].
 Qed.
+
+(* ---- a denial that shows nothing (finding bare-denial-unvalidated) ---- *)
+(* authority() on a response whose authority section is empty: no signer can be named, so for a zone that is_zone_secure,
+   without a proven insecure delegation below it, the response is refused — whatever its rcode and answer section, for a
+   validating request (CD=0) of any resolver that has an anchor (or runs with dnssec off) *)
+Lemma find_signers_nil rank q ia : find_signers rank [] q ia = [].
+Proof. reflexivity. Qed.
+
+Theorem bare_denial_refused_by_authority_lemma E q t resp pds zone :
+  m_ns resp = [] -> m_qtype resp = t -> m_qname resp = q ->
+  (e_dnssec E = true -> e_anchors E <> []) ->
+  is_zone_secure E q pds zone = true -> proven_insecure_delegation E zone q pds = false ->
+  validate_negative E q t false resp pds zone = Fail ENoSignatures.
+Proof.
+  intros Hns Ht Hq Ha Hs Hp. unfold validate_negative.
+  rewrite Ht, Hq, N.eqb_refl, name_eqb_refl. cbn [andb negb].
+  replace (e_dnssec E && match e_anchors E with [] => true | _ :: _ => false end) with false.
+  2:{ destruct (e_dnssec E); [|reflexivity]. destruct (e_anchors E); [exfalso; apply Ha; reflexivity|reflexivity]. }
+  rewrite Hns, find_signers_nil, Hs, Hp. reflexivity.
+Qed.
+
+(* ... and since the bare-denial repair the walk asks it: a name error or an empty NOERROR with empty sections, met by a
+   validating walk that holds a DS set under which the zone is_zone_secure, no insecure delegation proven, fails the walk
+   (SERVFAIL + EDE "RRSIGs missing" at the handler) wherever in the transcript it arrives, whatever the cache holds *)
+Theorem bare_denial_fails_closed_lemma E q t zone pds dc resp rest :
+  m_ans resp = [] -> m_ns resp = [] -> (m_rcode resp = 0 \/ m_rcode resp = RC_NXDOMAIN) ->
+  m_qtype resp = t -> m_qname resp = q ->
+  (e_dnssec E = true -> e_anchors E <> []) ->
+  is_zone_secure E q pds (Some zone) = true -> proven_insecure_delegation E (Some zone) q pds = false ->
+  dr_out (descend E q t false zone pds dc (resp :: rest)) = Fail ENoSignatures.
+Proof.
+  intros Ha Hn Hrc Ht Hq Hanch Hs Hp. cbn [descend]. rewrite Ha, Hn.
+  replace ((m_rcode resp =? RC_NXDOMAIN) || (m_rcode resp =? 0)) with true
+    by (destruct Hrc as [-> | ->]; reflexivity).
+  cbn [dr_out]. apply bare_denial_refused_by_authority_lemma; assumption.
+Qed.
+(* the witness of the refuted statement this replaces (the code before the repair accepted both) *)
+Definition K_bare_root : key := mk_key [] 1 257 3 15 1 11.
+Definition ds_bare : rr := mk_rr [1] T_DS 1 7 (RdDS 22 15 2 (DigOf 2 [1] 257 3 15 2) 0).
+Definition E_bare : env := mk_env (fun _ => 0) 0%Z true [K_bare_root] (fun _ _ => LErr 1) (fun _ => LErr 1) (fun _ _ _ => LErr 1)
+                                  (fun _ _ _ _ => OErr ENoSignatures) (fun _ _ _ _ => WErr ENoSignatures).
+Definition bare_msg (rc : N) : msg := mk_msg 9 [2; 1] 1 rc [] [] false.
+Example bare_denials_now_refused :
+  dr_out (descend E_bare [2; 1] 1 false [1] [ds_bare] [] [bare_msg RC_NXDOMAIN]) = Fail ENoSignatures /\
+  dr_out (descend E_bare [2; 1] 1 false [1] [ds_bare] [] [bare_msg 0]) = Fail ENoSignatures /\
+  dr_out (descend E_bare [2; 1] 1 false [1] [ds_bare] [] [bare_msg 5]) = Accept (mk_msg 9 [2; 1] 1 5 [] [] false) /\
+  dr_out (descend E_bare [2; 1] 1 true [1] [ds_bare] [] [bare_msg RC_NXDOMAIN]) = Accept (bare_msg RC_NXDOMAIN).
+Proof. vm_compute. repeat split; reflexivity. Qed.
 
 (* non-vacuity: a world with no anchors and CD set walks root -> [1] -> answer; the cut is NOT filed (no anchor), and
    with an anchorless validating client the walk fails closed at the first referral *)
